@@ -14,3 +14,4 @@ import Modbus.Props.C04Full
 #print axioms Modbus.C04Full.rtu_response_end_to_end_fails
 #print axioms Modbus.C04Full.rtu_exception_end_to_end
 #print axioms Modbus.C04Full.rtu_exception_end_to_end_codes
+#print axioms Modbus.C04Full.rtu_read_exception_status_end_to_end
